@@ -306,6 +306,21 @@ let c05_rownode (row : bytes list) (start : n) (len : n) : string =
   end
 (* C05 end *)
 
+(* C17 begin: explicit-memory model; shares are views arena[off : off+512 : off+cap] of ONE block *)
+let c17_views (s : string) : (nat * nat) list =
+  List.map (fun v -> match String.split_on_char ':' v with
+    | [o; c] -> (nat_of_int (int_of_string o), nat_of_int (int_of_string c))
+    | _ -> failwith "bad view") (split_list s)
+let c17_diff (d : nat option) : string =
+  match d with None -> "none" | Some i -> string_of_int (int_of_nat i)
+let c17_parse_blobs (copy_first : bool) (arena : bytes) (views : string) : string =
+  let ((d, res), _log) = mem_parse_blobs_run copy_first arena (c17_views views) in
+  c17_diff d ^ ";" ^ show_outcome (show_list show_blob) res
+let c17_parse_txs (arena : bytes) (views : string) : string =
+  let ((d, res), _log) = mem_parse_txs_run arena (c17_views views) in
+  c17_diff d ^ ";" ^ show_outcome (show_list hex_of_bytes) res
+(* C17 end *)
+
 let run (op : string) (a : string array) : string =
   let arg i = a.(i) in
   let n i = n_of_string (arg i) in
@@ -431,6 +446,11 @@ let run (op : string) (a : string array) : string =
   | "merkleroot" -> hex_of_bytes (merkle_root sha256 (hex_list (arg 0)))
   | "rownode" -> c05_rownode (hex_list (arg 0)) (n 1) (n 2)
   (* C05 end *)
+  (* C17 begin *)
+  | "memparseblobs" -> c17_parse_blobs true (h 0) (arg 1)
+  | "memparseblobslegacy" -> c17_parse_blobs false (h 0) (arg 1)
+  | "memparsetxs" -> c17_parse_txs (h 0) (arg 1)
+  (* C17 end *)
   | _ -> failwith ("unknown op " ^ op)
 
 let () =
